@@ -6,6 +6,7 @@ package mon
 import (
 	"encoding/json"
 	"fmt"
+	"math"
 	"os"
 	"sort"
 	"sync"
@@ -85,8 +86,23 @@ func (s *Shard) CellN(name string, n int64) { s.Cells[name] += n }
 // Inconclusive records a judgement that could not be decided (guard band...).
 func (s *Shard) Inconclusive(reason string) { s.Incon[reason]++ }
 
+// finite maps the non-finite floats (an error measured against an infinite or
+// NaN result) to values encoding/json can write.
+func finite(v float64) float64 {
+	switch {
+	case math.IsNaN(v):
+		return -1
+	case math.IsInf(v, 1):
+		return math.MaxFloat64
+	case math.IsInf(v, -1):
+		return -math.MaxFloat64
+	}
+	return v
+}
+
 // TrackMax keeps the largest value seen under a key together with its case.
 func (s *Shard) TrackMax(key string, v float64, c *Case) {
+	v = finite(v)
 	if old, ok := s.Max[key]; !ok || v > old {
 		s.Max[key] = v
 		if c != nil {
@@ -109,7 +125,7 @@ var Classifier func(v *Violation) string
 
 // ViolateM records a violation together with a numeric discrepancy measure.
 func (s *Shard) ViolateM(c *Case, kind, want, got, detail string, metric float64) {
-	v := Violation{Case: *c, Kind: kind, Want: want, Got: got, Detail: detail, Metric: metric}
+	v := Violation{Case: *c, Kind: kind, Want: want, Got: got, Detail: detail, Metric: finite(metric)}
 	s.ViolTotal++
 	if Classifier != nil {
 		v.Known = Classifier(&v)
